@@ -136,7 +136,17 @@ def h64(obj):
     return int.from_bytes(hashlib.blake2b(obj, digest_size=8).digest(), 'big')
 
 
+class ShardCut(BaseException):
+    """Raised inside a worker when one shard has reported HANG_CAP non-terminating cases: every further case of that shard
+    would burn the full CPU budget again.  The shard's violations so far are reported; the run fails anyway."""
+
+
+HANG_CAP = 6
+
+
 class Acc(object):
+    cut_on_hangs = False
+
     def __init__(self):
         self.counts = collections.Counter()
         self.outcomes = set()
@@ -167,12 +177,15 @@ class Acc(object):
         key = json.dumps(signature, sort_keys=True) + '|' + str(check)     # cap per signature and sub-check
         self._sig_seen[key] += 1
         self.counts['violating_cases'] += 1
-        if self._sig_seen[key] > MAX_VIOL_PER_SIG:
-            return
-        self.violations.append(dict(
-            property=prop, check=check, case=case, signature=signature,
-            observed=observed, expected=expected, note=note,
-        ))
+        if self._sig_seen[key] <= MAX_VIOL_PER_SIG:
+            self.violations.append(dict(
+                property=prop, check=check, case=case, signature=signature,
+                observed=observed, expected=expected, note=note,
+            ))
+        if isinstance(signature, dict) and signature.get('kind') == 'hang':
+            self.counts['hangs'] += 1
+            if self.cut_on_hangs and self.counts['hangs'] >= HANG_CAP:
+                raise ShardCut()
 
     def merge(self, other):
         self.counts.update(other.counts)
@@ -208,9 +221,13 @@ def _worker_run(ishard):
     i, shard = ishard
     acc = Acc()
     acc.sample_every = 997 + 2 * (i % 500)
+    acc.cut_on_hangs = True
     t0 = time.time()
     try:
-        _MOD.run_shard(shard, _TIER, acc)
+        try:
+            _MOD.run_shard(shard, _TIER, acc)
+        except ShardCut:
+            acc.counts['shards_cut_after_repeated_hangs'] += 1
         err = None
         for v in acc.violations:
             v['shard'] = shard
@@ -316,6 +333,11 @@ def run_check(mod, tier, seed):
     t0 = time.time()
     plan = mod.plan(tier)
     shards = plan['shards']
+    flt = os.environ.get('VERIF_SHARD_FILTER')
+    if flt and os.path.realpath(REPO) != '/repo':
+        # scratch runs only (seeded changes that make most cases hang): explore the shards whose description contains the text
+        shards = [sh for sh in shards if flt in repr(sh)]
+        print('NOTE: scratch run restricted to %d shards matching %r' % (len(shards), flt))
     merged, errors = run_shards(mod, tier, shards, seed=seed)
 
     known = load_known_findings()
